@@ -14,6 +14,7 @@ for id in C01 C02 C03 C04 C05 C06 C07 C08 C09 C10 C11 C12 C13 C14 C15 C16 C17 C1
 done
 python3 tools/genmanifest.py > /dev/null
 python3 tools/gentheorems.py
+python3 tools/genfacts.py
 python3-vt - <<'PY'
 import json,jsonschema,glob
 jsonschema.validate(json.load(open('/verif/MANIFEST.json')),json.load(open('/root/.vp/MANIFEST.schema.json')))
